@@ -32,11 +32,12 @@ def quit_schedule(units, ui, j, later=0):
 
 
 def big_markov_spec():
-    """a ruleset whose first pre-terminal is a Markov level of 87,376 strings (4 letters, lengths 2..8, every n-gram at level 0, every
-    length at level 1), followed by a plain structure of 10,000 guesses: a `q` typed while guesses flow lands inside the level"""
-    letters = ['a', 'b', 'c', 'd']
+    """a ruleset whose first pre-terminal is a Markov level of 2,015,538 strings (6 letters, lengths 2..8, every n-gram at level 0, every
+    length at level 1), followed by a plain structure of 10,000 guesses: a `q` typed while guesses flow lands inside the level (the
+    keyboard thread acts a tenth of a second after it read the line; block-buffered output runs at a million lines a second and more)"""
+    letters = ['a', 'b', 'c', 'd', 'e', 'f']
     om = {'ngram': 2, 'alphabet': letters, 'ip': [[0, x] for x in letters], 'ep': [[0, x] for x in letters],
-          'cp': [[0, x + y] for x in letters for y in letters], 'ln': [10] + [1] * 7, 'keyspace': [[1, 87376]]}
+          'cp': [[0, x + y] for x in letters for y in letters], 'ln': [10] + [1] * 7, 'keyspace': [[1, 2015538]]}
     words = ['%c%c%c' % (a, b, c) for a in 'abcde' for b in 'xy' for c in 'mnopq']
     d3 = [['%03d' % k, repr(0.01)] for k in range(100)]
     return {'terminals': {'A3': [[w, repr(1 / 50)] for w in words], 'C3': [['LLL', '0.7'], ['ULL', '0.3']], 'D3': d3},
@@ -44,13 +45,14 @@ def big_markov_spec():
 
 
 def big_plain_spec():
-    """20 pre-terminals of 5,000 guesses each with pairwise different probabilities (no Markov structure)"""
+    """20 pre-terminals of 50,000 guesses each with pairwise different probabilities (no Markov structure): a million lines, so that a
+    `q` typed while guesses flow is acted upon before the run is over"""
     words = ['%c%c%c' % (a, b, c) for a in 'abcde' for b in 'xy' for c in 'mnopq']
-    d3 = []
+    d4 = []
     for g, p_ in enumerate(['0.19', '0.17', '0.15', '0.13', '0.11', '0.09', '0.07', '0.05', '0.03', '0.01']):
-        d3 += [['%03d' % (g * 100 + k), repr(float(p_) / 100)] for k in range(100)]
-    return {'terminals': {'A3': [[w, repr(1 / 50)] for w in words], 'C3': [['LLL', '0.6'], ['ULL', '0.4']], 'D3': d3},
-            'grammar': [['A3D3', '1.0']], 'omen_prob': [], 'prince': [], 'encoding': 'utf-8'}
+        d4 += [['%04d' % (g * 1000 + k), repr(float(p_) / 1000)] for k in range(1000)]
+    return {'terminals': {'A3': [[w, repr(1 / 50)] for w in words], 'C3': [['LLL', '0.6'], ['ULL', '0.4']], 'D4': d4},
+            'grammar': [['A3D4', '1.0']], 'omen_prob': [], 'prince': [], 'encoding': 'utf-8'}
 
 
 def cli_interleaved_sessions(prop, tag, spec):
